@@ -1834,7 +1834,7 @@ def _coerce_to_expr_ast_MatchOr(
             _, _, ln, col = pat.f.loc
             end_ln, end_col = next_delims(lines, ln, col, ast_end_ln, ast_end_col)[-1]
 
-            ret = BinOp(left=ret, op=BitOr(), right=right, lineno=ret.lineno, col_offset=ret.col_offset,
+            ret = BinOp(left=ret, op=BitOr(), right=right, lineno=ast.lineno, col_offset=ast.col_offset,  # every left-nested BinOp starts where the MatchOr starts, parentheses of the first alternative included
                         end_lineno=end_ln + 1, end_col_offset=lines[end_ln].c2b(end_col))
 
     if is_FST:  # need this because of parentheses
